@@ -114,6 +114,17 @@ Theorem C01_interpreter_implements_the_reference_semantics_with_repetitions_and_
   (forall xs e vs, nodup_s xs = true -> Forall2 (fun x v => env_get e x = Some v) xs vs ->
      aeval (default_text xs) e = Some (match vs with [v] => v | _ => VList vs end)) ->
   (forall e v vs, env_get e "elem" = Some v -> env_get e "seq" = Some (VList vs) -> aeval "[elem] + seq" e = Some (VList (v :: vs))) ->
+  (* EXPLICIT actions (fourth session): the alternatives of plain methods may carry any action text; the grammar read back
+     carries the same text, and the reference semantics evaluates it with the same evaluator in the environment of the
+     alternative's named items (the variables of its conjunctions) ... *)
+  (forall alt ac vals env s e, alt_action alt = Some ac -> aevalP alt vals env s e = aeval (atext ac) env) ->
+  (forall a k, item_name a k = match nth_error (alt_items a) k with Some n => ni_name n | None => None end) ->
+  (* ... provided the value of an action does not depend on what EARLIER alternatives of the same method left bound
+     (the interpreter, like the generated Python method, keeps those locals) once its own alternative has bound its names ... *)
+  (forall a, plain_alt M a -> a_explicit a = true -> forall e1 e0,
+     (forall x, In x (conj_vars (a_conjs a)) -> env_get e1 x <> None) -> aeval (a_action a) (e1 ++ e0)%list = aeval (a_action a) e1) ->
+  (* ... and never is falsy (the recorded C05 finding: a falsy action value makes the alternative fail) *)
+  (forall a, plain_alt M a -> a_explicit a = true -> forall e v, aeval (a_action a) e = Some v -> truthy v = true) ->
   (forall s t, In t toks -> is_kind2 s = false -> expect_test K exact_types token_dict s t = String.eqb (tstr t) s) ->
   (forall s t, In t toks -> is_kind2 s = true -> expect_test K exact_types token_dict s t = kind2_test K M s t) ->
   forall fuel n st v st',
@@ -268,3 +279,52 @@ Example C01_syntax_error_example :
   end.
 Proof. vm_compute. repeat split; reflexivity. Qed.
 Print Assumptions C01_syntax_error_example.
+
+(* ... and END TO END for grammars WITH explicit actions (Proofs/Desugar.v with related actions, Proofs/GenSem.v).  The
+   reference semantics of the SOURCE grammar is taken with actions interpreted as Sem/PegEval.v documents them: the action
+   text after the generator's substitutions, evaluated by the same evaluator in the environment of the alternative's items
+   under the documented names ([src_names]: explicit names, default names of leaves, _1, _2 ... for repeats; only names
+   the action uses are bound).  [reads_back_with_actions rs M] is decidable: as [reads_back_as], but an alternative with
+   an action is related to the alternative read back when the texts agree after substitution and the documented names are,
+   position by position, the variables the generator bound.  Under the two hypotheses on explicit actions stated above
+   (independence of earlier alternatives' leftovers; never falsy), whenever the method of a rule of rs returns -- or
+   raises SyntaxError -- the reference semantics of rs derives exactly that. *)
+Theorem C01_generated_parser_implements_the_source_grammar_with_explicit_actions :
+  forall K toks M aeval exact_types token_dict fm rs,
+  reads_back_with_actions rs M = true ->
+  (forall xs e vs, nodup_s xs = true -> Forall2 (fun x v => env_get e x = Some v) xs vs ->
+     aeval (default_text xs) e = Some (match vs with [v] => v | _ => VList vs end)) ->
+  (forall e v vs, env_get e "elem" = Some v -> env_get e "seq" = Some (VList vs) -> aeval "[elem] + seq" e = Some (VList (v :: vs))) ->
+  (forall a, plain_alt M a -> a_explicit a = true -> forall e1 e0,
+     (forall x, In x (conj_vars (a_conjs a)) -> env_get e1 x <> None) -> aeval (a_action a) (e1 ++ e0)%list = aeval (a_action a) e1) ->
+  (forall a, plain_alt M a -> a_explicit a = true -> forall e v, aeval (a_action a) e = Some v -> truthy v = true) ->
+  (forall s t, In t toks -> is_kind2 s = false -> expect_test K exact_types token_dict s t = String.eqb (tstr t) s) ->
+  (forall s t, In t toks -> is_kind2 s = true -> expect_test K exact_types token_dict s t = kind2_test K M s t) ->
+  forall fuel n st, find_rule rs n <> None ->
+  (forall v st', run K toks false false M aeval exact_types token_dict fuel n st = (Ok v, st') ->
+     exists res, peg_item K rs toks (i_keywords M) (i_soft_keywords M) (src_aeval aeval) src_names (fun _ => fm) (NameLeaf n) (pos st) res /\
+                 ((truthy v = true /\ res = PSucc v (pos st')) \/ (v = VNone /\ res = PFail /\ pos st' = pos st))) /\
+  (forall ea t st', run K toks false false M aeval exact_types token_dict fuel n st = (Raise (XSyntaxError ea t), st') ->
+     exists msg q, peg_item K rs toks (i_keywords M) (i_soft_keywords M) (src_aeval aeval) src_names (fun _ => fm) (NameLeaf n) (pos st) (PErr msg q)).
+Proof. exact run_agrees_with_source_actions. Qed.
+Print Assumptions C01_generated_parser_implements_the_source_grammar_with_explicit_actions.
+
+(* Non-vacuity of the explicit-action part: a rule with an explicit action over two of its three items (the third, unused,
+   is not bound by the generator) and a parenthesised alternative with its own action: the module is in the fragment. *)
+Definition g04 : grammar :=
+  {| rules := [{| rname := "start"; rtype := None; rmemo := false;
+                  rrhs := Rhs 1 [Alt [NItem 2 (Some "a") None (NameLeaf "NAME"); NItem 3 (Some "b") None (NameLeaf "NUMBER"); NItem 4 None None (NameLeaf "NEWLINE")]
+                                      (Some {| atext := "foo(a, b)"; aused := ["foo"; "a"; "b"]; aparses := true |});
+                                 Alt [NItem 5 None None (Group (Rhs 6 [Alt [NItem 7 (Some "x") None (NameLeaf "NUMBER")] (Some {| atext := "[x]"; aused := ["x"]; aparses := true |})]));
+                                      NItem 8 None None (NameLeaf "NEWLINE")] None] |}];
+     metas := [] |}.
+Example C01_explicit_action_example :
+  match generate [] [] "" "" "g" 100 g04 {| a_nullable := []; a_item_nullable := []; a_graph := []; a_left_rec := []; a_leaders := [] |} with
+  | inl M => ir_ok M = true /\ no_explicit M = false /\ reads_back_with_actions (rules g04) M = true /\
+             map (fun m => (m_name m, map (fun a => (a_explicit a, a_action a, map cj_var (a_conjs a))) (m_alts m))) (i_meths M) =
+             [("start", [(true, "foo(a, b)", [Some "a"; Some "b"; None]); (false, "[_tmp_1, _newline]", [Some "_tmp_1"; Some "_newline"])]);
+              ("_tmp_1", [(true, "[x]", [Some "x"])])]
+  | inr _ => False
+  end.
+Proof. vm_compute. repeat split; reflexivity. Qed.
+Print Assumptions C01_explicit_action_example.
